@@ -13,6 +13,7 @@ import (
 type consumptions struct {
 	sync.Map
 	count int32
+	l     sync.Mutex // keeps count in step with the map when removals race
 }
 
 func (m *consumptions) SendToAll(p Pack, keyframe bool) {
@@ -25,21 +26,25 @@ func (m *consumptions) SendToAll(p Pack, keyframe bool) {
 
 func (m *consumptions) RemoveAndCloseAll() {
 	m.Range(func(key, value interface{}) bool {
-		c := value.(*consumption)
-		m.Delete(key)
-		c.Close()
+		if c := m.Remove(key.(CID)); c != nil {
+			c.Close()
+		}
 		return true
 	})
-
-	atomic.StoreInt32(&m.count, 0)
 }
 
 func (m *consumptions) Add(c *consumption) {
+	m.l.Lock()
 	m.Store(c.cid, c)
 	atomic.AddInt32(&m.count, 1)
+	m.l.Unlock()
 }
 
+// Remove takes cid out of the table; only the caller that actually removed the
+// entry gets it back (and counts it down), whoever else races for it gets nil
 func (m *consumptions) Remove(cid CID) *consumption {
+	m.l.Lock()
+	defer m.l.Unlock()
 	ci, ok := m.Load(cid)
 	if ok {
 		verifPoint("remove.loaded", ci)
